@@ -217,6 +217,12 @@ func runChild() {
 			mon.count("remove_version_gate_passes", 1)
 			delay()
 		})
+		// ... and inside GetSnapshot, where the current version is read and retained (under the family version's
+		// read lock on the unchanged tree: the delay then only slows the commit down)
+		version.VerifGateGetCache(snap0.GetCurrent().GetFamilyVersion(), func() {
+			mon.count("get_snapshot_gate_passes", 1)
+			delay()
+		})
 		snap0.Close()
 	}
 
